@@ -35,4 +35,24 @@ def obs_world(case):
         os.rmdir(d)
 
 
-OBSERVERS = {"world": obs_world}
+def obs_orders(case):
+    """the same operations executed in several different orders, each order in its own fresh interpreter;
+    the events are concatenated into ONE trace, so that the judge requires one result per input across all orders"""
+    events = []
+    t0 = None
+    outsize = 0
+    from concurrent.futures import ThreadPoolExecutor
+
+    with ThreadPoolExecutor(max_workers=8) as ex:
+        results = list(ex.map(lambda order: obs_world({"mode": "history", "ops": case["ops"], "probes": [], "history": order}), case["orders"]))
+    for r in results:
+        if t0 is None:
+            t0 = r["t0"]
+        elif r["t0"] != t0:
+            r["events"] = [e[:5] + ["changed-between-interpreters"] for e in r["events"]]
+        events += r["events"]
+        outsize += r["outsize"]
+    return {"mode": "history", "t0": t0 or "", "events": events, "outsize": outsize, "outtext": ""}
+
+
+OBSERVERS = {"world": obs_world, "orders": obs_orders}
